@@ -16,7 +16,7 @@ PROPERTY = "C03"
 TITLE = "Extracted sequence is the base-by-base image of the coordinate map"
 RULE = (
     "every location (disjoint layouts incl. adjacent blocks, <=3 blocks, both strands) over designed genomes of all five "
-    "nucleotide alphabets (every position carries a different symbol/case; all rotations in thorough): extraction, "
+    "nucleotide alphabets (every position carries a different symbol/case; quick: rotations covering every letter in both cases, thorough: all rotations): extraction, "
     "reverse-strand extraction, every 2- and 3-way split; located sequences built on every location: every slice "
     "s[a:b], s[i], s[:b], s[a:], reverse_complement (twice), append for every ordered pair of slices (compatible or "
     "not). Non-trivial = >=2 blocks or minus strand or a cut inside/at a block boundary."
@@ -82,6 +82,14 @@ def check_extract(res, aname, rot, N, bl, strand):
     if o[1].alphabet is not alpha:
         res.deviation("extract_sequence", case, o[1].alphabet.name, aname, sig="extract-alphabet")
     res.note("extract", strand + str(len(bl)))
+    # the same location object asked again (and block by block, twice): extraction is a function of the location
+    for rep in (2, 3):
+        o = lib.outcome(lambda: (str(L.extract_sequence()), [str(b_.extract_sequence()) for b_ in L.blocks]))
+        res.trans()
+        exp_blocks = [X((b_,), strand, G) for b_ in sorted(bl)]
+        if o[0] != "ok" or o[1][0] != exp or o[1][1] != exp_blocks:
+            res.deviation("extract_sequence", dict(repeat=rep, **case), list(o[1]) if o[0] == "ok" else o[1], [exp, exp_blocks], sig="extract-repeat")
+            break
     # reverse strand = reverse complement
     o = lib.outcome(lambda: str(L.reverse_strand().extract_sequence()))
     res.trans()
@@ -123,6 +131,8 @@ def consistent(seq, G):
         return None
     if type(loc) is _EmptyLocation or len(loc) == 0:
         return str(seq) == ""
+    if any(not (0 <= p < len(G)) for p in M.P(lib.loc_blocks(loc), lib.loc_strand(loc))):
+        return False  # a recorded location that leaves the chromosome spells nothing
     return tu(str(seq)) == tu(X(lib.loc_blocks(loc), lib.loc_strand(loc), G)) and len(loc) == len(seq)
 
 
@@ -191,6 +201,25 @@ def check_located(res, aname, N, bl, strand):
             res.deviation("__getitem__", c, o[1], text[a:], sig="slice-open-raises")
         elif str(o[1]) != text[a:] or consistent(o[1], G) is not True:
             res.deviation("__getitem__", c, str(o[1]), text[a:], sig="slice-open-inconsistent")
+    # bounds outside [0, len]: negative starts / ends / indices and ends beyond the length.  Python-style counting from
+    # the end is not promised anywhere, so a documented refusal is fine; but whatever IS returned must still spell the
+    # bases of its recorded location ("keeps their recorded location consistent with the characters they contain")
+    outs = [slice(a, b) for a in range(-ln - 1, 0) for b in list(range(-ln - 1, ln + 2)) + [None]] + [slice(a, b) for a in range(0, ln + 1) for b in list(range(-ln - 1, 0)) + [ln + 1]]
+    outs += [slice(None, b) for b in range(-ln - 1, 0)] + list(range(-ln - 1, 0)) + [ln, ln + 1]
+    for key in outs:
+        o = lib.outcome(lambda: s[key])
+        res.trans()
+        kd = [key.start, key.stop] if isinstance(key, slice) else key
+        c = dict(op="outside-bounds", key=kd, **case)
+        res.note("slice", "outside-bounds")
+        if o[0] != "ok":
+            if not lib.is_documented_exc(o[2]) and not isinstance(o[2], IndexError):
+                res.deviation("__getitem__", c, o[1], "refusal or consistent piece", sig="slice-outside-internal")
+            continue
+        t = o[1]
+        loc = t.location_on_parent
+        if loc is None or consistent(t, G) is not True:
+            res.deviation("__getitem__", c, [str(t), lib.canon_loc(loc) if loc is not None else None], "characters == bases of the recorded location", sig="slice-outside-inconsistent")
     # reverse complement (once: consistent; twice: identity on text and location)
     for (a, b), t in list(slices.items()) + [((0, ln), s)]:
         o = lib.outcome(t.reverse_complement)
@@ -250,7 +279,8 @@ def run_shard(shard):
         N = w["N"]
         idx = 0
         for aname, letters in ALPHS.items():
-            rots = range(len(letters)) if w["rots"] is None else range(0, len(letters), max(1, len(letters) // w["rots"]))
+            # quick: windows of N letters that together cover EVERY letter of the alphabet in both cases; thorough: all rotations
+            rots = range(len(letters)) if w["rots"] is None else range(0, len(letters), N)
             for rot in rots:
                 for bl in worlds.layouts(N, w["k"], "disjoint"):
                     idx += 1
